@@ -278,4 +278,62 @@ def getGasMixProfile {Î² : Type} (gases avail : List String) (mix : List (List Î
     some ((selectRows mix (inactiveMask gases avail)).getD (inact.idxOf name) [])
   else none
 
+/-! ### which molecules have opacity data: the session state of `OpacityCache`
+
+`Chemistry.__init__` asks `OpacityCache().find_list_of_molecules()` every time a chemistry is constructed.  The answer is
+a function of the state of the session AT THAT MOMENT: the cross-section files of the directory the opacity path points to
+now (`GlobalCache()['xsec_path']`, every `Opacity.discover()` lists it afresh) together with the tables held in memory
+(`opacity_dict`: registered with `add_opacity`, or loaded from the path by `OpacityCache()[molecule]`).  Directories are
+numbered; a directory is the list of molecules it holds a file for. -/
+
+structure CacheState where
+  /-- the directory the opacity path points to (`none`: no path set) -/
+  path : Option Nat
+  /-- directory `i` holds a cross-section file for these molecules -/
+  dirs : List (List String)
+  /-- keys of `opacity_dict`, insertion order -/
+  loaded : List String
+  deriving Repr
+
+inductive CacheOp where
+  /-- `set_opacity_path(dir_i)` -/
+  | setPath (i : Nat)
+  /-- a cross-section file for molecule `m` is put into directory `i` -/
+  | addFile (i : Nat) (m : String)
+  /-- the file of molecule `m` is taken out of directory `i` -/
+  | removeFile (i : Nat) (m : String)
+  /-- `add_opacity(table of m)`: kept unless a table of that molecule is held already -/
+  | register (m : String)
+  /-- `OpacityCache()[m]`: loads the table from the current path when it is not in memory (an exception, the state
+      unchanged, when the path has no file for it) -/
+  | load (m : String)
+  /-- `clear_cache()` -/
+  | clear
+  /-- `find_list_of_molecules()` â€” what every `Chemistry` construction does -/
+  | ask
+  deriving Repr
+
+/-- the molecules the cross-section files of the current path name (`discover()` of the opacity classes) -/
+def CacheState.discovered (s : CacheState) : List String :=
+  match s.path with
+  | none => []
+  | some i => s.dirs.getD i []
+
+/-- `find_list_of_molecules()` (a set in Python: order and repetitions are immaterial) -/
+def CacheState.molecules (s : CacheState) : List String := s.discovered ++ s.loaded
+
+def CacheState.step (s : CacheState) : CacheOp â†’ CacheState
+  | .setPath i => { s with path := some i }
+  | .addFile i m => { s with dirs := s.dirs.modify i (fun d => if d.contains m then d else d ++ [m]) }
+  | .removeFile i m => { s with dirs := s.dirs.modify i (fun d => d.filter (fun x => x != m)) }
+  | .register m => if s.loaded.contains m then s else { s with loaded := s.loaded ++ [m] }
+  | .load m =>
+    if s.loaded.contains m then s
+    else if s.discovered.contains m then { s with loaded := s.loaded ++ [m] } else s
+  | .clear => { s with loaded := [] }
+  | .ask => s
+
+/-- the state after a history of operations -/
+def CacheState.run (s : CacheState) (ops : List CacheOp) : CacheState := ops.foldl CacheState.step s
+
 end Taurex.Chemistry
